@@ -1299,3 +1299,88 @@ Proof.
   cbn zeta. split; [reflexivity|]. split; [reflexivity|].
   intros v H. repeat (destruct H as [<-|H]; [vm_compute; discriminate|]). destruct H.
 Qed.
+
+(* ------------------------------------------------------------------ any_of, outside its known class *)
+(* a chart that contributes nothing: a condition without values, a group of such *)
+Fixpoint vacuous (c : chart) : bool :=
+  match c with
+  | Crit _ _ vs _ _ => is_nil vs
+  | Group _ cs => forallb vacuous cs
+  end.
+
+Section AnyOf.
+  Variable bug : Type.
+  Variable has : str -> str -> bug -> bool.
+  Variable cond : str -> str -> list str -> bug -> bool.
+
+  Lemma somes_nil l : somes l = [] <-> forall o, In o l -> o = None.
+  Proof.
+    induction l as [|[b|] r IH]; cbn [somes flat_map List.app].
+    - split; [intros _ o [] | reflexivity].
+    - split; [discriminate|]. intro H. specialize (H (Some b) (or_introl eq_refl)). discriminate.
+    - change (flat_map _ r) with (somes r). rewrite IH. split.
+      + intros H o [<-|Ho]; auto.
+      + intros H o Ho. apply H. now right.
+  Qed.
+
+  Lemma eval_none_iff x : forall c, eval bug cond x (erase c) = None <-> vacuous c = true.
+  Proof.
+    induction c as [f o vs n sp | j cs IH] using chart_ind'.
+    - cbn. destruct vs; split; intro H; try discriminate; reflexivity.
+    - cbn [erase eval vacuous].
+      assert (E : somes (map (eval bug cond x) (map erase cs)) = [] <-> forallb vacuous cs = true).
+      { rewrite somes_nil, forallb_forall, map_map. rewrite Forall_forall in IH. split.
+        - intros H c Hc. apply IH; [exact Hc|]. apply H. apply in_map_iff. now exists c.
+        - intros H o Ho. apply in_map_iff in Ho as (c & <- & Hc). apply IH; auto. }
+      destruct (somes (map (eval bug cond x) (map erase cs))) eqn:S.
+      + split; [intros _; now apply E | reflexivity].
+      + split; [discriminate|]. intro H. apply E in H. discriminate H.
+  Qed.
+
+  Definition unit_operand (o : query) (c : chart) : Prop :=
+    wf_query o = true /\ simple o = [] /\ charts o = [c] /\ vacuous c = false.
+
+  Lemma operands_values x qs cs : Forall2 unit_operand qs cs ->
+    exists vs, map (fun c => eval bug cond x (erase c)) cs = map Some vs /\
+               map (fun o => sem bug has cond o x) qs = map (fun v => Some (v && true)) vs /\
+               flat_map charts qs = cs /\ forallb wf_chart cs = true.
+  Proof.
+    induction 1 as [|o c qs cs (W & S & C & V) _ (vs & E1 & E2 & E3 & E4)].
+    - exists []. repeat split; reflexivity.
+    - destruct (eval bug cond x (erase c)) as [v|] eqn:Ev.
+      2:{ apply eval_none_iff in Ev. congruence. }
+      exists (v :: vs). cbn [map flat_map forallb]. rewrite Ev, E1, E2, E3, E4, C.
+      assert (ND : NoDup (keys (simple o))) by (rewrite S; constructor).
+      rewrite (sem_charac bug has cond o x W ND), S, C. cbn [map simple_sem forallb].
+      unfold charts_ok. cbn [map somes flat_map]. rewrite Ev. cbn [List.app forallb id].
+      pose proof (wf_query_charts o W) as Wc. rewrite C in Wc. cbn [forallb] in Wc.
+      apply andb_true_iff in Wc as [Wc _]. rewrite Wc. repeat split; reflexivity.
+  Qed.
+
+  Lemma somes_map_some vs : somes (map Some vs) = vs.
+  Proof. induction vs as [|v r IH]; [reflexivity|]. cbn [map somes flat_map List.app]. change (flat_map _ (map Some r)) with (somes (map Some r)). now rewrite IH. Qed.
+
+  Lemma opt_or_list_values vs :
+    opt_or_list (map (fun v => Some (v && true)) vs) = Some (existsb id vs).
+  Proof.
+    induction vs as [|v r IH]; [reflexivity|]. cbn [map opt_or_list fold_right existsb].
+    unfold opt_or_list in IH. rewrite IH. unfold id at 1. now rewrite andb_true_r.
+  Qed.
+
+  Lemma any_of_is_disjunction_partial_proof qs cs q x :
+    qs <> [] -> Forall2 unit_operand qs cs -> any_of qs = Some q ->
+    sem bug has cond q x = opt_or_list (map (fun o => sem bug has cond o x) qs).
+  Proof.
+    intros NE F A. destruct (operands_values x qs cs F) as (vs & E1 & E2 & E3 & E4).
+    unfold any_of in A. destruct (forallb (fun q => is_nil (simple q)) qs); [|discriminate].
+    injection A as <-. rewrite E3.
+    assert (W : wf_query {| simple := []; charts := [Group JOr cs]; limit := None; offset := None; order := None |} = true).
+    { unfold wf_query. cbn [simple charts forallb wf_chart]. now rewrite E4. }
+    rewrite (sem_charac bug has cond _ x W ltac:(constructor)). cbn [simple charts simple_sem forallb map erase].
+    rewrite E2, opt_or_list_values. f_equal.
+    unfold charts_ok. cbn [map eval]. rewrite map_map, E1, somes_map_some.
+    destruct vs as [|v r].
+    - destruct qs; [congruence|]. cbn [map] in E2. discriminate E2.
+    - cbn [somes flat_map List.app forallb xorb]. unfold id at 1. destruct (existsb id (v :: r)); reflexivity.
+  Qed.
+End AnyOf.
